@@ -211,6 +211,9 @@ class ElemLoop:
             raise Unsupported("break inside a loop under an element-wise contract")
         prev, path.in_source = path.in_source, False
         try:
+            from pyvc.loops import require_declared
+            require_declared(st, fr, {n.id for n in _ast.walk(st.target) if isinstance(n, _ast.Name)} |
+                             ({self.acc.var} if self.acc is not None else set()), self.name)
             it = interp.eval(st.iter, fr)
             parts = it.parts if isinstance(it, SymListZip) else [it]
             if not all(isinstance(p, SymBytesList) for p in parts):
